@@ -158,6 +158,9 @@ struct HttpReq {
     body: Vec<u8>,
 }
 
+/// number of coming requests the mock agent answers with 503
+static FAIL_NEXT: std::sync::atomic::AtomicU32 = std::sync::atomic::AtomicU32::new(0);
+
 fn http_server() -> (u16, Receiver<HttpReq>) {
     let server = tiny_http::Server::http("127.0.0.1:0").unwrap();
     let port = server.server_addr().to_ip().unwrap().port();
@@ -173,6 +176,12 @@ fn http_server() -> (u16, Receiver<HttpReq>) {
                     headers: rq.headers().iter().map(|h| (h.field.to_string().to_lowercase(), h.value.to_string())).collect(),
                     body,
                 };
+                // an agent that is overloaded or restarting answers 503 to some requests
+                if FAIL_NEXT.load(std::sync::atomic::Ordering::SeqCst) > 0 {
+                    FAIL_NEXT.fetch_sub(1, std::sync::atomic::Ordering::SeqCst);
+                    let _ = rq.respond(tiny_http::Response::from_string("unavailable").with_status_code(503));
+                    continue;
+                }
                 let _ = rq.respond(tiny_http::Response::from_string("{}"));
                 if tx.send(r).is_err() {
                     return;
@@ -482,6 +491,20 @@ fn run_case(env: &Env, c: &Case) -> Outcome {
         Case::Datadog { batch } => {
             while env.http_rx.try_recv().is_ok() {}
             let mut rep = fastrace_datadog::DatadogReporter::new(format!("127.0.0.1:{}", env.http_port).parse().unwrap(), cfg().service, cfg().resource, cfg().ty);
+            // a reporter lives as long as the process: in a third of the cases earlier batches went
+            // through it, the agent answering 503 to one of them (derived from the batch itself so
+            // that the case stays a pure function of its data)
+            let mode = batch.len() % 3;
+            if mode != 0 && !batch.is_empty() {
+                let filler = vec![Rec { trace_hi: 0, trace_lo: 9, span: 9, parent: 0, begin: 5, dur: 5, name: "earlier-batch".into(), props: vec![("k".into(), "v".into())], events: vec![] }];
+                if mode == 2 {
+                    FAIL_NEXT.store(1, std::sync::atomic::Ordering::SeqCst);
+                }
+                rep.report(filler.iter().map(|r| r.to_record()).collect());
+                FAIL_NEXT.store(0, std::sync::atomic::Ordering::SeqCst);
+                std::thread::sleep(Duration::from_millis(2));
+                while env.http_rx.try_recv().is_ok() {}
+            }
             rep.report(batch.iter().map(|r| r.to_record()).collect());
             let mut reqs = vec![];
             if !batch.is_empty() {
